@@ -579,15 +579,25 @@ Definition unkept_b (keep : Z -> bool) (s : list Z) : bool := forallb (fun c => 
 Definition neutral_b (keep : Z -> bool) (subs : list (list Z * list Z)) : bool :=
   forallb (fun p => unkept_b keep (fst p) && unkept_b keep (snd p) && negb (isnil (fst p))) subs.
 
+(* the nodes that the harness asks about in the node-level reading: everything except the structural markers, paragraph nodes
+   and table rows / cells (rows of rules are removed with their cells) *)
+Definition vis_std (h : head) : bool :=
+  negb ((h_mode h =? 2) || h_eg h || h_cd h || h_er h || h_sc h || h_bd h || h_rw h || (h_level h =? PAR_LEVEL)
+        || match h_kind h with KCell | KRow => true | _ => false end).
+
+Definition node_names (l : list atom) : list Z :=
+  flat_map (fun a => match a with ANode h => [h_name h] | _ => [] end) l.
+
 Definition val_of_atoms (l : list atom) : val :=
-  VL (map (fun a => match a with AWord w => VL [VI 0; ofZs w] | AChar c => VL [VI 1; VI c] end) l).
+  VL (map (fun a => match a with AWord w => VL [VI 0; ofZs w] | AChar c => VL [VI 1; VI c] | ANode h => VL [VI 2; VI (h_name h)] end) l).
 
 Definition all_wf (l : list tree) : bool := forallb wf_sections_b l.
 
 (* case:   [0, subs, parname, items, impl_forest]
    answer: [0, forest, words of the dropped items, words of the forest, words of the stream, wf(model forest),
             wf(implementation's forest), words of the implementation's forest, number of sectioning events, item_ok of every stream item,
-            the table touches no letter or digit and has no empty source] *)
+            the table touches no letter or digit and has no empty source,
+            no visible node (vis_std) and no word in the dropped items, the visible nodes of the forest are those of the stream in order] *)
 Definition run_case (v : val) : val :=
   match v with
   | VL [VI 0; sv; VI parname; VL items; VL impl] =>
@@ -601,7 +611,9 @@ Definition run_case (v : val) : val :=
                   val_of_atoms (words keep_alnum (flatten_forest ts));
                   ofB (all_wf forest); ofB (all_wf impl);
                   val_of_atoms (words keep_alnum (flatten_forest impl));
-                  VI (Z.of_nat (length (s_ev s))); ofB (forallb item_ok_b ts); ofB (neutral_b keep_alnum subs)]
+                  VI (Z.of_nat (length (s_ev s))); ofB (forallb item_ok_b ts); ofB (neutral_b keep_alnum subs);
+                  ofB (isnil (reading_forest vis_std keep_alnum (map snd (s_log s))));
+                  ofB (list_eqb (node_names (reading_forest vis_std keep_alnum forest)) (node_names (reading_forest vis_std keep_alnum ts)))]
           | OutOfFuel => v_outoffuel
           | Crashed k => v_crash k
           end
